@@ -1,10 +1,445 @@
 /-
-  MdModel.Regs — placeholder (model not written yet).
+  MdModel.Regs — C18: register access by name, for the nine CPU context types.
+
+  The TABLES (`REGISTERS`, the arms of `get_register_always` / `set_register`, the alias arms of
+  `memoize_register` / `register_is_valid`, `sparc_alias_index`'s parameters, sp/ip names, register
+  width, struct fields, `*RegisterNumbers`, the `MinidumpContext` dispatch) are GENERATED from
+  minidump/src/context.rs and minidump-common/src/format.rs by translators/regs.py into
+  `MdModel.Gen.Regs` on every run.  This file is the hand-written INTERPRETATION of those tables:
+  it mirrors the provided methods of `trait CpuContext`, `default_memoize_register`, the
+  `CpuRegisters` iterator and `MinidumpContext::{get_register, get_register_always,
+  format_register, registers, valid_registers, register_size, get_stack_pointer,
+  get_instruction_pointer}` (whose exact text the translator pins).
+
+  Conventions
+  * a context's state is a FUNCTION from storage cells (`field` / `field[i]`) to values; values
+    are arbitrary naturals (a `u32 → u64` `.into()` / `as u64` is the identity on them);
+  * a Rust `match reg { "a" | "b" => …, _ => … }` is a first-match lookup in an association list;
+  * `unreachable!`, an out-of-range array index and `REGISTERS[idx]` out of range are the explicit
+    `Outcome.panic`, never a totalised default.
 -/
 import MdModel.Prelude
+import MdModel.Gen.Regs
 namespace MdModel.Regs
+open MdModel MdModel.Gen.Regs
 
-/-- line-protocol entry point of this model (engine(s): regs) -/
-def handle (_engine : String) (_args : List String) : String := "bad-op"
+/-! ## lookups -/
+
+/-- first-match lookup (a Rust `match` on string literals) -/
+def assoc {β : Type} : List (String × β) → String → Option β
+  | [], _ => none
+  | (a, b) :: t, k => if a = k then some b else assoc t k
+
+/-- a resolved storage cell: `field` (scalar) or `field[i]` -/
+structure Cell where
+  field : String
+  idx : Option Nat
+  deriving DecidableEq, Repr
+
+/-- the register file: every cell holds a value -/
+abbrev State := Cell → Nat
+
+def State.zero : State := fun _ => 0
+
+/-- `self.cell = val` -/
+def State.write (st : State) (c : Cell) (v : Nat) : State :=
+  fun c' => if c' = c then v else st c'
+
+/-- `md::<Enum>::<Variant> as usize` -/
+def enumVal (ty variant : String) : Option Nat :=
+  match assoc enums ty with
+  | some vs => assoc vs variant
+  | none => none
+
+def resolve (r : CellRef) : Option Cell :=
+  match r.idx with
+  | none => some ⟨r.field, none⟩
+  | some (.lit n) => some ⟨r.field, some n⟩
+  | some (.enum ty v) =>
+    match enumVal ty v with
+    | some n => some ⟨r.field, some n⟩
+    | none => none
+
+def fieldOf (c : Ctx) (name : String) : Option Field :=
+  (fields c).find? (fun f => f.name = name)
+
+/-- the place exists in the struct: a scalar field used as a scalar, or an index below the array
+    length (`self.iregs[16]` on a `[u32; 16]` would be the index panic) -/
+def inBounds (c : Ctx) (cell : Cell) : Bool :=
+  match fieldOf c cell.field, cell.idx with
+  | some f, none => f.len.isNone
+  | some f, some i =>
+    (match f.len with
+     | some n => decide (i < n)
+     | none => false)
+  | none, _ => false
+
+/-- evaluate a place expression of the source: the cell, or the index panic -/
+def place (c : Ctx) (r : CellRef) : Outcome Cell :=
+  match resolve r with
+  | none => .panic "enum variant not found"
+  | some cell => if inBounds c cell then .ok cell else .panic "index out of bounds"
+
+/-! ## `impl CpuContext for md::CONTEXT_*` -/
+
+/-- `get_register_always`: the first matching arm; no arm = `unreachable!` -/
+def getAlways (c : Ctx) (st : State) (n : String) : Outcome Nat :=
+  match assoc (getArms c) n with
+  | none => .panic "unreachable: invalid register"
+  | some r =>
+    match place c r with
+    | .ok cell => .ok (st cell)
+    | .panic s => .panic s
+
+/-- `set_register`: `Some(())` with the new state, or `None` for an unsupported name -/
+def setRegister (c : Ctx) (st : State) (n : String) (v : Nat) : Outcome (Option State) :=
+  match assoc (setArms c) n with
+  | none => .ok none
+  | some r =>
+    match place c r with
+    | .ok cell => .ok (some (st.write cell v))
+    | .panic s => .panic s
+
+/-- `default_memoize_register`: the static copy of the first equal element of `REGISTERS` -/
+def defaultMemo (regs : List String) (n : String) : Option String :=
+  regs.find? (fun r => r = n)
+
+/-- `sparc_alias_index`.  The source works on bytes (`len == 2`, `bytes[1]` in the digit range,
+    `bytes[0]` selects the base); on characters this is the same function: a two-byte string whose
+    second byte is an ASCII digit consists of two ASCII characters, and a two-character string with
+    a non-ASCII character has more than two bytes and fails the range/base tests here as well. -/
+def aliasIndex (sa : SparcAlias) (n : String) : Option Nat :=
+  match n.toList with
+  | [c0, c1] =>
+    if sa.digitLo.toNat ≤ c1.toNat ∧ c1.toNat ≤ sa.digitHi.toNat then
+      match sa.bases.find? (fun b => b.1 = c0) with
+      | some b => some (b.2 + (c1.toNat - sa.digitLo.toNat))
+      | none => none
+    else none
+  | _ => none
+
+/-- `memoize_register` (trait default or the context's override) -/
+def memoize (c : Ctx) (n : String) : Outcome (Option String) :=
+  match memoRule c with
+  | .default => .ok (defaultMemo (registers c) n)
+  | .arms as =>
+    match assoc as n with
+    | some r => .ok (some r)
+    | none => .ok (defaultMemo (registers c) n)
+  | .sparcIndex =>
+    match aliasIndex sparcAlias n with
+    | some i =>
+      (match (registers c)[i]? with
+       | some r => .ok (some r)
+       | none => .panic "index out of bounds")
+    | none => .ok (defaultMemo (registers c) n)
+
+/-- `MinidumpContextValidity` (the hash set is a duplicate-free list) -/
+inductive Validity where
+  | all
+  | some (s : List String)
+  deriving Repr
+
+/-- `which.iter().any(|other| self.memoize_register(other) == Some(canonical))` — some element of
+    the set has the canonical name `r` (short-circuiting like `Iterator::any`; `memoize_register`
+    never panics — theorem `memoize_total` — so the hash set's iteration order is immaterial) -/
+def anyMemoIs (c : Ctx) (r : String) : List String → Outcome Bool
+  | [] => .ok false
+  | o :: t =>
+    match memoize c o with
+    | .panic s => .panic s
+    | .ok m => if m = some r then .ok true else anyMemoIs c r t
+
+/-- `register_is_valid` (trait default or the context's override) -/
+def isValid (c : Ctx) (n : String) : Validity → Outcome Bool
+  | .all =>
+    match memoize c n with
+    | .ok m => .ok m.isSome
+    | .panic s => .panic s
+  | .some S =>
+    match validRule c with
+    | .default => .ok (S.contains n)
+    | .groups gs =>
+      (match gs.find? (fun g => g.1.contains n) with
+       | some g => .ok (g.2.any fun a => S.contains a)
+       | none => .ok (S.contains n))
+    | .sparcMemo =>
+      if S.contains n then .ok true
+      else
+        match memoize c n with
+        | .ok (some r) => .ok (S.contains r)
+        | .ok none => .ok false
+        | .panic s => .panic s
+    | .sparcCanon =>
+      if S.contains n then .ok true
+      else
+        match memoize c n with
+        | .ok (some r) => anyMemoIs c r S
+        | .ok none => .ok false
+        | .panic s => .panic s
+
+/-- `get_register` (provided method): `Some(get_register_always(reg))` iff valid.
+    `MinidumpContext::get_register` is the same computation (`register_is_valid` of the variant's
+    context, then `get_register_always`, widened to `u64`). -/
+def getRegister (c : Ctx) (st : State) (n : String) (valid : Validity) : Outcome (Option Nat) :=
+  match isValid c n valid with
+  | .panic s => .panic s
+  | .ok false => .ok none
+  | .ok true =>
+    match getAlways c st n with
+    | .ok v => .ok (some v)
+    | .panic s => .panic s
+
+/-- `iter.map(|reg| (reg, get_register_always(reg)))`, stopping at the first panic -/
+def collect (c : Ctx) (st : State) : List String → Outcome (List (String × Nat))
+  | [] => .ok []
+  | n :: t =>
+    match getAlways c st n with
+    | .panic s => .panic s
+    | .ok v =>
+      match collect c st t with
+      | .panic s => .panic s
+      | .ok r => .ok ((n, v) :: r)
+
+/-- `CpuContext::registers()` = `valid_registers(&All)`: `REGISTERS` in order -/
+def cpuRegisters (c : Ctx) (st : State) : Outcome (List (String × Nat)) :=
+  collect c st (registers c)
+
+/-- `CpuContext::valid_registers(valid)`: `REGISTERS`, or the elements of the set as given
+    (hash-set order is arbitrary; the set is presented here in the order of the list) -/
+def cpuValidRegisters (c : Ctx) (st : State) : Validity → Outcome (List (String × Nat))
+  | .all => collect c st (registers c)
+  | .some S => collect c st S
+
+/-- `MinidumpContext::registers()`: `general_purpose_registers()` mapped through
+    `get_register_always` -/
+def mdRegisters (c : Ctx) (st : State) : Outcome (List (String × Nat)) :=
+  collect c st (registers (gprOf c))
+
+/-- `MinidumpContext::valid_registers()`: `registers().filter(register_is_valid)`; the value is
+    computed (and may panic) before the filter looks at the name -/
+def mdValidFrom (c : Ctx) (st : State) (valid : Validity) : List String → Outcome (List (String × Nat))
+  | [] => .ok []
+  | n :: t =>
+    match getAlways c st n with
+    | .panic s => .panic s
+    | .ok v =>
+      match isValid c n valid with
+      | .panic s => .panic s
+      | .ok keep =>
+        match mdValidFrom c st valid t with
+        | .panic s => .panic s
+        | .ok r => .ok (if keep then (n, v) :: r else r)
+
+def mdValidRegisters (c : Ctx) (st : State) (valid : Validity) : Outcome (List (String × Nat)) :=
+  mdValidFrom c st valid (registers (gprOf c))
+
+/-- `register_size()` = `size_of::<Register>()` -/
+def registerSize (c : Ctx) : Nat := regBits c / 8
+
+/-- `MinidumpContext::get_stack_pointer` -/
+def stackPointer (c : Ctx) (st : State) : Outcome Nat :=
+  match place c (spCell c) with
+  | .ok cell => .ok (st cell)
+  | .panic s => .panic s
+
+/-- `MinidumpContext::get_instruction_pointer` -/
+def instructionPointer (c : Ctx) (st : State) : Outcome Nat :=
+  match place c (ipCell c) with
+  | .ok cell => .ok (st cell)
+  | .panic s => .panic s
+
+/-- lower-case hex, left-padded with zeros to at least `w` digits (`{:0w$x}`) -/
+def hexPad (v w : Nat) : String :=
+  let d := Nat.toDigits 16 v
+  String.ofList (List.replicate (w - d.length) '0' ++ d)
+
+/-- `format_register`: `format!("0x{:01$x}", value, size_of::<Register>() * 2)` -/
+def formatRegister (c : Ctx) (st : State) (n : String) : Outcome String :=
+  match getAlways c st n with
+  | .ok v => .ok ("0x" ++ hexPad v (registerSize c * 2))
+  | .panic s => .panic s
+
+/-! ## name universes read off the tables -/
+
+def dedup : List String → List String
+  | [] => []
+  | a :: t => if t.contains a then dedup t else a :: dedup t
+
+/-- the window aliases `sparc_alias_index` maps, spelled out: base letter × digit -/
+def sparcAliasNames (sa : SparcAlias) : List String :=
+  sa.bases.flatMap fun b =>
+    (List.range (sa.digitHi.toNat + 1 - sa.digitLo.toNat)).map fun k =>
+      String.ofList [b.1, Char.ofNat (sa.digitLo.toNat + k)]
+
+def memoKeys (c : Ctx) : List String :=
+  match memoRule c with
+  | .default => []
+  | .arms as => as.map (·.1)
+  | .sparcIndex => sparcAliasNames sparcAlias
+
+def validKeys (c : Ctx) : List String :=
+  match validRule c with
+  | .groups gs => gs.flatMap fun g => g.1 ++ g.2
+  | _ => []
+
+/-- every name that occurs in any table of the context: `REGISTERS`, getter and setter patterns,
+    alias arms of `memoize_register` and `register_is_valid`, the sp/ip names -/
+def knownNames (c : Ctx) : List String :=
+  dedup (registers c ++ (getArms c).map (·.1) ++ (setArms c).map (·.1) ++ memoKeys c ++ validKeys c
+         ++ [spName c, ipName c])
+
+/-- the resolved cell a name denotes for the getter (none: no arm / unresolvable) -/
+def getCell (c : Ctx) (n : String) : Option Cell :=
+  match assoc (getArms c) n with
+  | some r => resolve r
+  | none => none
+
+def setCell (c : Ctx) (n : String) : Option Cell :=
+  match assoc (setArms c) n with
+  | some r => resolve r
+  | none => none
+
+/-! ## line protocol
+
+  request : `regs <CTX> <valid> <op> <op> …`
+    CTX    X86 | AMD64 | ARM | ARM64_OLD | ARM64 | PPC | PPC64 | MIPS | SPARC
+    valid  `all` | `some:` name-tokens separated by `,` (duplicate-free, may be empty)
+    name-token   `[A-Za-z0-9_]+` verbatim, anything else `%` + hex(utf-8 bytes)  (`%` = empty name)
+    ops (state starts all-zero; `set` is the only op that changes it)
+      set:<n>:<hex>  -> ok | none          geta:<n> -> hex            get:<n> / mget:<n> -> hex | none
+      fmt:<n> / mfmt:<n> -> text           memo:<n> -> token | none   valid:<n> -> 0 | 1
+      regs | vregs | mregs | mvregs -> n=hex,…      gpr -> n,…       size | sp | ip | spname | ipname
+      names -> every name of the tables    dump -> non-zero cells of the register-bearing fields
+    any panic -> `PANIC` for that op
+  answer  : op results joined by `;`
+-/
+open Proto
+
+def isPlainChar (ch : Char) : Bool :=
+  ('a' ≤ ch ∧ ch ≤ 'z') ∨ ('A' ≤ ch ∧ ch ≤ 'Z') ∨ ('0' ≤ ch ∧ ch ≤ '9') ∨ ch = '_'
+
+def encName (n : String) : String :=
+  if n ≠ "" ∧ n.toList.all isPlainChar then n
+  else "%" ++ (if n = "" then "" else hex n.toUTF8.data.toList)
+
+def decName (t : String) : Option String :=
+  match t.toList with
+  | [] => none
+  | '%' :: rest =>
+    if rest.isEmpty then some "" else
+    match unhex (String.ofList rest) with
+    | some bs => if bs.isEmpty then none else String.fromUTF8? (ByteArray.mk bs.toArray)
+    | none => none
+  | cs => if cs.all isPlainChar then some t else none
+
+def parseCtx (s : String) : Option Ctx := Ctx.all.find? (fun c => c.name = s)
+
+def hasDup : List String → Bool
+  | [] => false
+  | a :: t => t.contains a || hasDup t
+
+def parseValid (s : String) : Option Validity :=
+  if s = "all" then some .all
+  else if s.startsWith "some:" then
+    let toks := pieces ((s.drop 5).toString) ","
+    let names := toks.filterMap decName
+    if names.length ≠ toks.length ∨ hasDup names then none else some (.some names)
+  else none
+
+def showPairs (ps : List (String × Nat)) : String :=
+  if ps.isEmpty then "-" else joinWith "," (ps.map fun p => encName p.1 ++ "=" ++ natToHex p.2)
+
+def showOut {α : Type} (f : α → String) : Outcome α → String
+  | .ok a => f a
+  | .panic _ => "PANIC"
+
+/-- fields that hold a named register (referenced by a getter/setter arm or an accessor), in
+    struct order, with all their indices -/
+def dumpCells (c : Ctx) : List Cell :=
+  let used := ((getArms c).map (·.2.field)) ++ ((setArms c).map (·.2.field)) ++ [(spCell c).field, (ipCell c).field]
+  (fields c).flatMap fun f =>
+    if used.contains f.name then
+      match f.len with
+      | none => [⟨f.name, none⟩]
+      | some n => (List.range n).map fun i => ⟨f.name, some i⟩
+    else []
+
+def showCell (cell : Cell) : String :=
+  match cell.idx with
+  | none => cell.field
+  | some i => cell.field ++ "[" ++ toString i ++ "]"
+
+def showDump (c : Ctx) (st : State) : String :=
+  let nz := (dumpCells c).filter fun cell => st cell ≠ 0
+  if nz.isEmpty then "-" else joinWith "," (nz.map fun cell => showCell cell ++ "=" ++ natToHex (st cell))
+
+def insertSorted (a : String) : List String → List String
+  | [] => [a]
+  | b :: t => if a < b then a :: b :: t else b :: insertSorted a t
+
+def sortNames (l : List String) : List String := l.foldr insertSorted []
+
+/-- one op: (answer, new state) or none for a malformed op -/
+def runOp (c : Ctx) (valid : Validity) (st : State) (op : String) : Option (String × State) :=
+  let optv (o : Outcome (Option Nat)) : String :=
+    showOut (fun | some v => natToHex v | none => "none") o
+  match op.splitOn ":" with
+  | ["set", n, v] =>
+    match decName n, parseHexNat v with
+    | some n, some v =>
+      if v ≥ 2 ^ regBits c then none else
+      (match setRegister c st n v with
+       | .ok (some st') => some ("ok", st')
+       | .ok none => some ("none", st)
+       | .panic _ => some ("PANIC", st))
+    | _, _ => none
+  | [k, n] =>
+    match decName n with
+    | none => none
+    | some n =>
+      match k with
+      | "geta" | "mgeta" => some (showOut natToHex (getAlways c st n), st)
+      | "get" | "mget" => some (optv (getRegister c st n valid), st)
+      | "fmt" | "mfmt" => some (showOut id (formatRegister c st n), st)
+      | "memo" => some (showOut (fun | some r => encName r | none => "none") (memoize c n), st)
+      | "valid" => some (showOut (fun b => if b then "1" else "0") (isValid c n valid), st)
+      | _ => none
+  | [k] =>
+    match k with
+    | "regs" => some (showOut showPairs (cpuRegisters c st), st)
+    | "vregs" => some (showOut showPairs (cpuValidRegisters c st valid), st)
+    | "mregs" => some (showOut showPairs (mdRegisters c st), st)
+    | "mvregs" => some (showOut showPairs (mdValidRegisters c st valid), st)
+    | "gpr" => some (joinWith "," ((registers (gprOf c)).map encName), st)
+    | "size" => some (toString (registerSize c), st)
+    | "sp" => some (showOut natToHex (stackPointer c st), st)
+    | "ip" => some (showOut natToHex (instructionPointer c st), st)
+    | "spname" => some (encName (spName c), st)
+    | "ipname" => some (encName (ipName c), st)
+    | "names" => some (joinWith "," ((sortNames (knownNames c)).map encName), st)
+    | "dump" => some (showDump c st, st)
+    | _ => none
+  | _ => none
+
+def runOps (c : Ctx) (valid : Validity) : State → List String → List String → Option (List String)
+  | _, [], acc => some acc.reverse
+  | st, op :: rest, acc =>
+    match runOp c valid st op with
+    | some (a, st') => runOps c valid st' rest (a :: acc)
+    | none => none
+
+/-- line-protocol entry point of this model (engine: regs) -/
+def handle (_engine : String) (args : List String) : String :=
+  match args with
+  | ctx :: valid :: ops =>
+    (match parseCtx ctx, parseValid valid with
+     | some c, some v =>
+       if ops.isEmpty then "bad-op" else
+       (match runOps c v State.zero ops [] with
+        | some outs => joinWith ";" outs
+        | none => "bad-op")
+     | _, _ => "bad-op")
+  | _ => "bad-op"
 
 end MdModel.Regs
